@@ -53,7 +53,7 @@ class Case:
                 if not ob.startswith("ok"):
                     return
                 self.n = int(t[1])
-                self.items = [int(x) for x in t[2:]]
+                self.items = [pnum(x) for x in t[2:]]
                 sec = sections(ob)
                 self.bounds = [pnum(x) for x in sec["B"]]
                 self.dt_impl = [pnum(x) for x in sec["DT"]]
@@ -578,6 +578,7 @@ def check_C16_with_inverse(lines, obs):
 
 HISTORY_CHECKS = {"C03": lambda l, o: check_balance_history(l, o) or check_C17(l, o),
                   "C08": lambda l, o: check_tables_history(l, o),
+                  "C10": lambda l, o: check_C17(l, o),     # a re-used stock-driven model still inverts / agrees across solvers
                   "C16": lambda l, o: check_C17(l, o)}
 CHECKS = {k: _guard(v) for k, v in {"C03": check_C03, "C08": check_C08, "C09": check_C09,
                                     "C10": check_C10, "C16": check_C16_with_inverse, "C17": check_C17}.items()}
